@@ -362,12 +362,36 @@ def apply_xyz_edit(obj, spec, e):
         else:
             obj.coords[e["i"], e["c"]] = e["v"]
         sp["frames"][e["fr"] if spec["kind"] == "E" else 0][e["i"]][e["c"]] = e["v"]
+    elif e["f"] in ("append", "extend"):
+        if spec["kind"] == "E":  # (size edit of ensembles only)
+            n = len(sp["atoms"])
+            geoms = [Molecule([Atom(Element(a[0])) for a in sp["atoms"]], coords=np.array(fr, dtype=float).reshape(n, 3)) for fr in e["v"]]
+            if e["f"] == "append":
+                obj.append(geoms[0])
+                sp["frames"] = sp["frames"] + [[list(p) for p in e["v"][0]]]
+            else:
+                obj.extend(geoms)
+                sp["frames"] = sp["frames"] + [[list(p) for p in fr] for fr in e["v"]]
+    elif e["f"] == "add_atom":
+        if spec["kind"] != "E":  # (size edit of single geometries only)
+            z, xyz = e["v"]
+            if spec["kind"] == "M":
+                obj.add_atom(Atom(Element(z)), list(xyz), charge=0.0)
+            else:
+                obj.add_atom(Atom(Element(z)), list(xyz))
+            sp["atoms"].append([z, REG])
+            sp["frames"][0].append(list(xyz))
+    elif e["f"] == "del_atom":
+        if spec["kind"] != "E":
+            obj.del_atom(e["i"])
+            sp["atoms"].pop(e["i"])
+            sp["frames"][0].pop(e["i"])
     else:
         raise HarnessError(repr(e))
     return sp
 
 
-def check_geom(ctx, gspec, kinds=None, edit=None):
+def check_geom(ctx, gspec, kinds=None, edit=None, name_tag=False):
     """gspec: spec without 'kind'.  All applicable classes are run inside ONE case so that the
     signature can say whether a symptom belongs to one class or to all of them."""
     tmp = Path(ctx.scratch) / f"c08-{os.getpid()}.xyz"
@@ -400,7 +424,14 @@ def check_geom(ctx, gspec, kinds=None, edit=None):
             # write - edit in place - write: what the writer derives from the object follows its CURRENT state
             ctx.count(transitions=1)
             try:
-                do_write(obj, edit["first"], tmpw)
+                if edit["first"] == "iterate":
+                    if kind == "E":
+                        for _c in obj:
+                            pass
+                    else:
+                        obj.dumps_xyz()
+                else:
+                    do_write(obj, edit["first"], tmpw)
             except Exception:
                 pass  # a failing first write is reported by the plain cases
             try:
@@ -443,8 +474,10 @@ def check_geom(ctx, gspec, kinds=None, edit=None):
     ctx.outcome((digest(all_texts), tuple(sorted(cells)), tuple(sorted(wcells))))
     fcls = "" if fmt is None else "|fmt=explicit"
     if edit is not None:
-        fcls += "|after[write+edit-in-place]"
-    case = {"layer": "RT", "gspec": gspec, "kinds": kinds, "edit": edit}
+        fcls += "|after[write+grow-or-shrink]" if any(e["f"] in ("append", "extend", "add_atom", "del_atom") for e in edit["edits"]) else "|after[write+edit-in-place]"
+    if name_tag:
+        fcls += f"|name[{comment_class(gspec['name'])}]"
+    case = {"layer": "RT", "gspec": gspec, "kinds": kinds, "edit": edit, "name_tag": name_tag}
     for sym in sorted(wcells):
         for gk, gw in product_groups(wcells[sym], 2):
             if gw == ["-"]:
@@ -729,6 +762,54 @@ def gen_RW(seed, thorough):
             for a in edits[:4]:
                 for b in edits[4:8]:
                     yield gspec("rw", atoms, frames), {"first": first, "edits": [a, b]}
+        # size-changing edits between the two writes: an ensemble gains conformers, a geometry gains / loses an atom
+        n1 = [[p[1] + 1.0, p[2] - 2.0, p[0]] for p in frames[-1]]
+        n2 = [[p[2], p[0] + 3.5, p[1]] for p in frames[-1]]
+        size = [{"f": "append", "v": [n1]}, {"f": "extend", "v": [n1, n2]}]
+        if k == 1:
+            size += [{"f": "add_atom", "v": [17, [3.25, -4.5, 0.125]]}] + [{"f": "del_atom", "i": i} for i in range(3)]
+        for first in rot(WRITERS + ["iterate"], seed):
+            for e in size:
+                yield gspec("rw", atoms, frames), {"first": first, "edits": [e]}
+            for a in size[:3]:
+                for b in size[:3]:
+                    yield gspec("rw", atoms, frames), {"first": first, "edits": [a, b]}
+
+
+COMMENTS = ["", " ", "\t", " a", "a ", "3", "0", "C 0 0 0", "x" * 300, "#c"]
+
+
+def gen_RC(seed, thorough):
+    """molli-written: the object's NAME is the comment line - every name of the comment alphabet x frame shapes"""
+    tr = triples(seed + 7, [v for v in CVALS if v == v])
+    a2 = [(6, REG), (1, REG)]
+    for name in rot(COMMENTS, seed):
+        yield gspec(name, a2, [[tr[0], tr[1]]])
+        yield gspec(name, a2, [[tr[0], tr[1]], [tr[2], tr[3]]])
+        yield gspec(name, [(8, REG)], [[tr[1]], [tr[2]], [tr[4]]])
+        yield gspec(name, [], [[]])
+        yield gspec(name, [], [[], []])
+        yield gspec(name, [], [[], [], []])
+
+
+def gen_RC2(seed, thorough):
+    """(frames, comments, final_newline): multi-frame texts (harness formatter = 'foreign' files, and concatenated molli dumps)
+    with every comment of the alphabet on every / the first / the last frame, 0-atom frames (also two in a row),
+    with and without a terminated last line"""
+    A = het_alphabet(seed, thorough)
+    Z = {"atoms": [], "xyz": []}
+    shapes = [[A[2][0]], [A[2][0], A[2][1]], [Z, Z], [Z, A[2][0]], [A[2][0], Z, Z], [A[1][0], A[1][1], A[1][3]], [Z], [A[3][0], Z, A[3][1]]]
+    for c in rot(COMMENTS, seed):
+        for frames in shapes:
+            k = len(frames)
+            variants = [[c] * k]
+            if k > 1:
+                variants += [[c] + ["title"] * (k - 1), ["title"] * (k - 1) + [c]]
+            for comments in variants:
+                for fnl in (True, False):
+                    if not fnl and not frames[-1]["atoms"] and comments[-1].strip() == "":
+                        continue  # "0\n" + blank comment without a line end: the comment line is not there at all
+                    yield frames, comments, fnl
 
 
 R_LAYERS = {"R0": gen_R0, "R1": gen_R1, "R2": gen_R2, "R3": gen_R3, "R4": gen_R4}
@@ -866,28 +947,62 @@ def het_frame_symptoms(fr, g, from_harness):
     return out
 
 
-def het_text(frames, source):
+def comment_class(c):
+    """input class of a comment / name line"""
+    if c.strip() == "":
+        return "blank"
+    if c != c.strip():
+        return "padded"
+    try:
+        float(c)
+        return "number-like"
+    except ValueError:
+        pass
+    f = c.split()
+    if len(f) == 4 and all(_isnum(x) for x in f[1:]):
+        return "atom-line-like"
+    return "long" if len(c) > 100 else "plain"
+
+
+def _isnum(x):
+    try:
+        float(x)
+        return True
+    except ValueError:
+        return False
+
+
+def het_text(frames, source, comments=None, final_newline=True):
     if source == "harness-formatter":
         out = []
         for fi, fr in enumerate(frames):
-            out.append(f"{len(fr['atoms'])}\nframe {fi}\n")
+            out.append(f"{len(fr['atoms'])}\n{comments[fi] if comments else f'frame {fi}'}\n")
             for (z, t), p in zip(fr["atoms"], fr["xyz"]):
                 sym = "*" if t == DUMMY else Element(z).name
                 out.append(f"{sym:<3} {p[0]:.6f} {p[1]:.6f} {p[2]:.6f}\n")
-        return "".join(out)
-    cname = source.split(":")[1].split(".")[0]
-    kind = {v: k for k, v in KINDNAME.items()}[cname]
-    return "".join(build(mkspec(kind, f"f{fi}", fr["atoms"], [fr["xyz"]]))[0].dumps_xyz() for fi, fr in enumerate(frames))
+        text = "".join(out)
+    else:
+        cname = source.split(":")[1].split(".")[0]
+        kind = {v: k for k, v in KINDNAME.items()}[cname]
+        text = "".join(build(mkspec(kind, comments[fi] if comments else f"f{fi}", fr["atoms"], [fr["xyz"]]))[0].dumps_xyz() for fi, fr in enumerate(frames))
+    if not final_newline and text.endswith("\n"):
+        text = text[:-1]  # the last line of the file is not terminated
+    return text
 
 
-def check_hetero(ctx, frames):
-    """frames: [{"atoms": [[Z, atype]..], "xyz": [[x,y,z]..]}, ..] (2..k frames, each its own geometry)"""
+def check_hetero(ctx, frames, comments=None, final_newline=True):
+    """frames: [{"atoms": [[Z, atype]..], "xyz": [[x,y,z]..]}, ..] (1..k frames, each its own geometry);
+    comments: the comment (= name) line of every frame (layer RC), else 'frame i'"""
     tmp = Path(ctx.scratch) / f"c08-{os.getpid()}-h.xyz"
     k = len(frames)
-    case = {"layer": "RH", "frames": frames}
+    case = {"layer": "RH", "frames": frames, "comments": comments, "final_newline": final_newline}
+    ctag = ""
+    if comments is not None:
+        # input class = the unusual comment kinds present (a plain title next to them is not named; the line-end variant is in the case)
+        ctag = "comment[" + ("+".join(sorted({comment_class(c) for c in comments} - {"plain"})) or "plain") + "]|"
     ctx.count(evaluations=1, states=1, traces=1)
-    if any(frames[i]["atoms"] != frames[i - 1]["atoms"] for i in range(1, k)):
-        ctx.nontrivial(("RH", digest(frames)))
+    if comments is not None or any(frames[i]["atoms"] != frames[i - 1]["atoms"] for i in range(1, k)):
+        ctx.nontrivial(("RH", digest((frames, comments, final_newline))))
     cells, detail = {}, {}
 
     def add(sym, src, r, d):
@@ -898,7 +1013,7 @@ def check_hetero(ctx, frames):
     for src in HET_SOURCES:
         ctx.count(transitions=k if src != "harness-formatter" else 0)
         try:
-            text = het_text(frames, src)
+            text = het_text(frames, src, comments, final_newline)
         except Exception as e:
             add(f"write-raised-{exc(e)}", src, "-", f"{exc(e)}: {e}")
             continue
@@ -965,7 +1080,7 @@ def check_hetero(ctx, frames):
         for gs, gr in product_groups(cells[sym], 2):
             sd = "*" if set(gs) == set(HET_SOURCES) else ",".join(gs)
             ctx.violation(
-                f"rt-hetero|{sym}|src={sd}|r={rdesc(gr)}",
+                f"rt-hetero|{ctag}{sym}|src={sd}|r={rdesc(gr)}",
                 f"{k}-frame xyz text of different geometries ({gs[0]}), read by {gr[0]}: {detail[(sym, gs[0], gr[0])]}",
                 case,
                 repro=repro_hetero(frames, gr[0]),
@@ -1035,6 +1150,20 @@ def _part_inner(ctx, part):
             ctx.add_note(f"cases_{layer}")
             if idx == i and i < 2:
                 ctx.sample({"layer": layer, "gspec": g})
+        return
+    if layer == "RC":
+        for idx, g in enumerate(gen_RC(seed, thorough)):
+            if idx % nparts != i:
+                continue
+            check_geom(ctx, g, name_tag=True)
+            ctx.add_note("cases_RC")
+        return
+    if layer == "RC2":
+        for idx, (frames, comments, fnl) in enumerate(gen_RC2(seed, thorough)):
+            if idx % nparts != i:
+                continue
+            check_hetero(ctx, frames, comments, fnl)
+            ctx.add_note("cases_RC2")
         return
     if layer == "RW":
         for idx, (g, edit) in enumerate(gen_RW(seed, thorough)):
@@ -1107,6 +1236,10 @@ def run(ctx):
         "object -> text -> object is judged against what the constructed OBJECT holds (normally exactly the requested values); text -> object is judged "
         "against the numbers in the file: layer RF (6 written decimals, |read - file| <= 0.5e-6 + 4 ulp, every reader of every class) and layer UNITS "
         "(units that are exact powers of ten of the Angstrom: rel. 1e-9; Bohr/au: rel. 1e-5)",
+        "layers RC/RC2 (comment line = name): comments '', ' ', TAB, padded, number-like ('3', '0'), atom-line-like ('C 0 0 0'), 300 characters, '#c' on every / the first / the "
+        "last frame of single- and multi-frame texts incl. 0-atom frames (two in a row), written by molli (object names) and by the harness, with and without a terminated last line; "
+        "frame count and content must be unchanged (the reader names every geometry 'unnamed': the comment itself is not compared); excluded because the reference tree's strict parser "
+        "rejects them and molli never writes them: blank lines after the last frame, and a 0-atom last frame whose blank comment line is not terminated",
         "layer RW (write - edit in place - write): a geometry written once, whose atom's element or a coordinate is then edited in place, must be written "
         "according to its CURRENT state by every writer (no per-object memo of symbols / coordinates)",
         "layer RH (multi-frame texts of DIFFERENT geometries): texts come from the harness's formatter ('*' for a dummy) and from molli (each geometry "
@@ -1132,7 +1265,7 @@ def run(ctx):
     )
     np_ = 16 if thorough else 8
     parts = []
-    for layer in ("R0", "R4", "R3", "RF", "RW", "RH", "UNITS", "R2", "R1"):
+    for layer in ("R0", "R4", "R3", "RF", "RW", "RC", "RC2", "RH", "UNITS", "R2", "R1"):
         n = 1 if layer == "R0" else np_ * (4 if (thorough and layer in ("R1", "R2")) else 1)
         parts += [(layer, i, n) for i in range(n)]
     ctx.pmap(_part, parts)
@@ -1140,11 +1273,16 @@ def run(ctx):
 
 def replay(ctx, case):
     if case["layer"] == "RT":
-        check_geom(ctx, normspec(case["gspec"]), kinds=case.get("kinds"), edit=case.get("edit"))
+        check_geom(ctx, normspec(case["gspec"]), kinds=case.get("kinds"), edit=case.get("edit"), name_tag=bool(case.get("name_tag")))
     elif case["layer"] == "RF":
         check_file(ctx, [(int(a[0]), int(a[1])) for a in case["atoms"]], case["sframes"])
     elif case["layer"] == "RH":
-        check_hetero(ctx, [{"atoms": [[int(a[0]), int(a[1])] for a in fr["atoms"]], "xyz": [[fl(c) for c in p] for p in fr["xyz"]]} for fr in case["frames"]])
+        check_hetero(
+            ctx,
+            [{"atoms": [[int(a[0]), int(a[1])] for a in fr["atoms"]], "xyz": [[fl(c) for c in p] for p in fr["xyz"]]} for fr in case["frames"]],
+            case.get("comments"),
+            case.get("final_newline", True),
+        )
     elif case["layer"] == "UNITS":
         atoms = [(int(a[0]), int(a[1])) for a in case["atoms"]]
         frames = [[[fl(c) for c in p] for p in f] for f in case["frames"]]
